@@ -634,6 +634,11 @@ func (s *backendSuite) do(t []string) string {
 		s.c.mu.Unlock()
 		klog.SetLogFilter(logGate{c: s.c})
 		return "logarm ok"
+	case "commitdelay":
+		s.c.mu.Lock()
+		s.c.commitDelay = time.Duration(atoi(pos[1])) * time.Millisecond
+		s.c.mu.Unlock()
+		return "commitdelay ok"
 	case "getdelay":
 		s.c.mu.Lock()
 		s.c.getDelay = time.Duration(atoi(pos[1])) * time.Millisecond
